@@ -111,19 +111,23 @@ def check_case(case):
             return c.reap_combos_to_ds(**dskw, **kw)
         return c.reap_combos_to_ds(var_names="out", to_df=True, **kw)
 
-    # ---- refused without allow_incomplete ---------------------------------
-    try:
-        reap()
-        vio.append((key("not-refused"), "an incomplete crop was reaped "
-                    "without allow_incomplete"))
-    except Exception as e:
-        if type(e).__name__ != "XYZError":
-            vio.append((key("refused-with:" + type(e).__name__),
-                        "incomplete crop refused with %r instead of the "
-                        "documented error" % e))
-    if fsseam.tree_hash(d) != before:
-        vio.append((key("refusal-touched-files"),
-                    "a refused reap changed the crop directory"))
+    def refusal():
+        # ---- refused without allow_incomplete ---------------------------------
+        try:
+            reap()
+            vio.append((key("not-refused"), "an incomplete crop was reaped "
+                        "without allow_incomplete"))
+        except Exception as e:
+            if type(e).__name__ != "XYZError":
+                vio.append((key("refused-with:" + type(e).__name__),
+                            "incomplete crop refused with %r instead of the "
+                            "documented error" % e))
+        if fsseam.tree_hash(d) != before:
+            vio.append((key("refusal-touched-files"),
+                        "a refused reap changed the crop directory"))
+
+    if not case.get("live"):
+        refusal()
 
     # ---- the partial reap --------------------------------------------------
     def judge(res, full):
@@ -214,6 +218,10 @@ def check_case(case):
     if fsseam.tree_hash(d) != before:
         vio.append((key("partial-touched-files"),
                     "a partial reap changed the crop directory"))
+    if case.get("live"):
+        # (for the long-lived reaper the refusal is probed afterwards, so
+        # that nothing refreshes its view of the crop before the partial reap)
+        refusal()
 
     # ---- grow the rest, full reap ------------------------------------------
     try:
